@@ -674,7 +674,7 @@ func streamKeys(o opts) {
 		keyTrial(m, "int8", func(i int) (int8, int8) { v := int8(i*7 - 100); return v, int8(int16(v)) }, n, pol)
 		keyTrial(m, "int16", func(i int) (int16, int16) { v := int16(i*997 - 20000); return v, v }, n, pol)
 		keyTrial(m, "int32", func(i int) (int32, int32) { v := int32(i*99991 - 1<<30); return v, v }, n, pol)
-		keyTrial(m, "int64", func(i int) (int64, int64) { v := int64(i)*(-1 << 40) + 5; return v, v }, n, pol)
+		keyTrial(m, "int64", func(i int) (int64, int64) { v := int64(i)*(-1<<40) + 5; return v, v }, n, pol)
 		keyTrial(m, "uint8", func(i int) (uint8, uint8) { v := uint8(i * 5); return v, v }, n, pol)
 		keyTrial(m, "uint16", func(i int) (uint16, uint16) { v := uint16(i * 1021); return v, v }, n, pol)
 		keyTrial(m, "uint32", func(i int) (uint32, uint32) { v := uint32(i) * 2654435761; return v, v }, n, pol)
